@@ -419,5 +419,13 @@ def modelKeys : List (String × String) :=
     a key added, renamed or read with another scanner breaks this obligation -/
 theorem derive_keys_match_source : modelKeys = Gen.deriveKeys := by decide
 
+/-- the option values the model's parsers recognise are the arms of the two `FromStr` impls of the current source
+    (after `trim`), and the default strategy is the `#[default]` variant: a spelling added or removed there breaks
+    this obligation (guards by evaluation, like the one above) -/
+theorem option_spellings_match_source :
+    Gen.deprecationFromStr = ("s.trim()", [("allow", "Allow"), ("deny", "Deny"), ("warn", "Warn")]) ∧
+    Gen.normalizationFromStr = ("s.trim()", [("none", "None"), ("rust", "Rust")]) ∧
+    Gen.deprecationDefault = "Warn" := ⟨rfl, rfl, rfl⟩
+
 end C18
 end GqlVerif
